@@ -203,9 +203,9 @@ def design_level(out, tier):
     out.add_tlc('MCLifecycle_ok.cfg', res, '3 handles, <= 3 processes, create with arguments, open / busy open / close / pickle / fork / store / remove; '
                                            'SettingsComeBack, SameCodec, OneContents, UsedConnectionIsOwn')
     rej = []
-    for name, inv in (('dev_busy', 'SettingsComeBack'), ('dev_pickle', 'SameCodec'), ('dev_conn', 'UsedConnectionIsOwn')):
-        res = run_tlc('MCLifecycle.tla', 'MCLifecycle_%s.cfg' % name, workers=2, timeout=300)
-        if res.violation != inv:
+    for name, inv in (('dev_busy', ('SettingsComeBack',)), ('dev_pickle', ('SameCodec', 'OneContents')), ('dev_conn', ('UsedConnectionIsOwn',))):
+        res = run_tlc('MCLifecycle.tla', 'MCLifecycle_%s.cfg' % name, workers=1, timeout=300)
+        if res.violation not in inv:
             raise MachineryError('MCLifecycle_%s was expected to violate %s, got %s %s' % (name, inv, res.violation, res.error))
         rej.append('%s violates %s' % (name, inv))
     out.notes['design_deviations_rejected'] = rej
